@@ -70,6 +70,8 @@ def mk_items(spec):
 def gen_case(rng, long=False):
     sep = rng.random() < 0.12
     ids = ["a", "b", "c", "d", "e", "ep10", "ep2", "É"]
+    if rng.random() < 0.3:
+        ids = ["a", "A", "b", "B", "ep7", "Ep7", "EP7", "é", "É", "ß", "ss", "c::k", "C::K"]  # ids that differ only in case
     if sep:
         ids = ["a", "b", "c", "a" + ARROW + "b", "b" + ARROW + "c"] + ([ARROW] if rng.random() < 0.3 else [])
     cfg = gen_cfg(rng)
